@@ -166,6 +166,8 @@ class UseWalrusIf(SimpleCodemod, NameResolutionMixin):
         del updated_node
         if named_expr := self.assigns.get(original_node):
             position = self.node_position(original_node)
+            if not self.filter_by_path_includes_or_excludes(position):
+                return original_node
             self._modify_next_if.append((position, named_expr))
             return cst.RemoveFromParent()
 
